@@ -202,3 +202,4 @@ _upd("C14",
                                                "and no attribute of the LASFile object itself is assigned. The remaining LASFile-level behaviour (set_data's column binding and DataFrame branch, update_curve,"))
 _upd("C16",
      technique=M["C16"]["technique"].replace("discharged by z3;", "and of LASFile.set_data (it never assigns index_initial, the snapshot write() compares the index with) discharged by z3;"))
+
